@@ -1,10 +1,10 @@
 PROP = dict(
-    drivers=[dict(cmd="drv-registry", family="registry", variant="map", tags="verif"),
-             dict(cmd="drv-registry", family="registry", variant="gcopt", tags="verif gc_opt")],
+    drivers=[dict(cmd="drv-registry", family="registry", variant="map", tags="verif", search_thorough=False),
+             dict(cmd="drv-registry", family="registry", variant="gcopt", tags="verif gc_opt", search_thorough=False)],
     rule="a case is one registry driven by a generated op sequence (add / del first-middle-last-random by position / "
          "re-register the just-removed fd / iterate read-only, shutdown, remove-some, early stop / checkpoints that read "
          "getConn for every fd ever used, loadCount and each live conn's stored (row,column)); populations 0..8 (160 cases), "
-         "10..300 (60 cases), one case crossing the 65536 row boundary (thorough: 8 more around 65536, 131072 and 196608, "
+         "10..300 (60 cases), one case crossing the 65536 row boundary (thorough: 7 more around 65536 and 131072, "
          "and 10-50x the small cases); both build variants (conn_map.go, conn_matrix.go with -tags gc_opt); "
          "non-trivial = tagged with a deletion shape / iteration pattern / boundary; distinct by hash of the op lines",
     trusted=["stdlib FMapPositive (PositiveMap) as the executable finite map of the model; Sorting.Mergesort only to sort the visit list for printing"],
